@@ -141,7 +141,7 @@ func Drive(p *Property, tier Tier, seed int64, verifDir string, replay string) i
 			cmd := exec.Command(self, args...)
 			of, _ := os.Create(filepath.Join(outDir, fmt.Sprintf("worker-%d.out", w)))
 			cmd.Stdout, cmd.Stderr = of, of
-			cmd.Env = append(os.Environ(), "GORACE=halt_on_error=0 log_path="+filepath.Join(outDir, fmt.Sprintf("race-%d", w)))
+			cmd.Env = append(os.Environ(), "GORACE=halt_on_error=0 exitcode=0 log_path="+filepath.Join(outDir, fmt.Sprintf("race-%d", w)))
 			if err := cmd.Start(); err != nil {
 				stats[w].err = err
 				return
@@ -451,44 +451,42 @@ func collectRaces(outDir string) (int, int, []Violation, int) {
 }
 
 func raceSignature(blk string) (string, bool) {
-	// split into the access stacks; take the innermost target frame of each of the first two stacks
+	// A report has two access stacks ("Read at"/"Write at"/"Previous ... at") followed by goroutine
+	// creation stacks. The race is attributed to the code under test when the innermost frame of either
+	// access is in openziti/storage or antlr (frames deeper in the stack only say who called the harness).
 	inTarget := false
-	var stacks [][]string
-	var cur []string
-	for _, l := range strings.Split(blk, "\n") {
-		t := strings.TrimSpace(l)
-		if t == "" {
-			if len(cur) > 0 {
-				stacks = append(stacks, cur)
-				cur = nil
-			}
+	var tops []string
+	lines := strings.Split(blk, "\n")
+	for i := 0; i < len(lines); i++ {
+		t := strings.TrimSpace(lines[i])
+		isAccess := (strings.HasPrefix(t, "Read at") || strings.HasPrefix(t, "Write at") || strings.HasPrefix(t, "Previous read at") ||
+			strings.HasPrefix(t, "Previous write at") || strings.HasPrefix(t, "Atomic") || strings.HasPrefix(t, "Previous atomic"))
+		if !isAccess {
 			continue
 		}
-		if strings.HasPrefix(l, "  ") && !strings.HasPrefix(l, "      ") && strings.Contains(t, "(") && !strings.HasSuffix(t, ":") {
-			fn := t
-			if j := strings.Index(fn, "("); j > 0 {
-				fn = fn[:j]
+		// innermost non-runtime frame of this access
+		for j := i + 1; j < len(lines); j++ {
+			f := strings.TrimSpace(lines[j])
+			if f == "" {
+				break
 			}
-			cur = append(cur, fn)
+			if strings.HasPrefix(lines[j], "      ") || !strings.Contains(f, "(") {
+				continue
+			}
+			fn := f
+			if k := strings.Index(fn, "("); k > 0 {
+				fn = fn[:k]
+			}
+			if strings.HasPrefix(fn, "runtime.") || strings.HasPrefix(fn, "sync.") || strings.HasPrefix(fn, "sync/atomic.") || strings.HasPrefix(fn, "errors.") || strings.HasPrefix(fn, "reflect.") {
+				continue // library helper: look at its caller
+			}
+			tops = append(tops, fn)
 			if strings.Contains(fn, "github.com/openziti/storage") || strings.Contains(fn, "antlr4-go") {
 				inTarget = true
 			}
+			break
 		}
 	}
-	if len(cur) > 0 {
-		stacks = append(stacks, cur)
-	}
-	var sigParts []string
-	for i := 0; i < len(stacks) && i < 2; i++ {
-		pick := stacks[i][0]
-		for _, fn := range stacks[i] {
-			if strings.Contains(fn, "github.com/openziti/storage") || strings.Contains(fn, "antlr4-go") {
-				pick = fn
-				break
-			}
-		}
-		sigParts = append(sigParts, pick)
-	}
-	sort.Strings(sigParts)
-	return strings.Join(sigParts, " <-> "), inTarget
+	sort.Strings(tops)
+	return strings.Join(tops, " <-> "), inTarget
 }
